@@ -38,9 +38,10 @@ def run(ctx: Ctx) -> None:
         chain(ctx, ctx.func(q), provider)
 
 
-def _dispatch_kinds(f: FuncInfo) -> set[str]:
+def _dispatch_kinds(f: FuncInfo, ctx=None) -> set[str]:
     out = set()
-    for c in ast.walk(f.node):
+    nodes = [n for _, n in C.flat_walk(ctx, f)] if ctx is not None else list(ast.walk(f.node))
+    for c in nodes:
         if isinstance(c, ast.Compare) and isinstance(c.ops[0], ast.Eq):
             for side in (c.left, c.comparators[0]):
                 d = dotted(side) or ""
@@ -55,7 +56,7 @@ def kinds(ctx: Ctx, rule="R-C18-KINDS") -> None:
     ctx.floor(rule, len(members), 2, "DependencyKind members")
     for q in (f"{C.PROCESSOR}._actor_run", f"{DEPENDS}.resolve"):
         f = ctx.func(q)
-        got = _dispatch_kinds(f)
+        got = _dispatch_kinds(f, ctx)
         ctx.check(got == set(members), rule, f, f"kinds dispatched in {f.short()}", f"{sorted(got)} = all DependencyKind members",
                   f"{f.short()} dispatches on {sorted(got)} but DependencyKind has {sorted(members)}: a declared dependency of the missing kind fails at run time "
                   "('Unsupported dependency argument')", instance=f"kinds in {f.short()}")
@@ -78,12 +79,16 @@ def inside_try(ctx: Ctx, rule="R-C18-INSIDE-TRY") -> None:
     tries = [n for n in ast.walk(f.node) if isinstance(n, ast.Try)]
     ctx.require(bool(tries), f"{f.qualname}: no try statement")
     calls = [n for n in ast.walk(f.node) if isinstance(n, ast.Call) and isinstance(n.func, ast.Attribute) and n.func.attr in ("resolve", "construct_as_dependency", "gather")]
+    for h in C.helper_callees(ctx, f):
+        if any(isinstance(n, ast.Call) and isinstance(n.func, ast.Attribute) and n.func.attr in ("resolve", "construct_as_dependency", "gather") for n in ast.walk(h.node)):
+            # the resolution work happens where the helper is called
+            calls += [c for c in ast.walk(f.node) if isinstance(c, ast.Call) and any(cal is h for cal in ctx.res.callees(f, c, record=False))] * 2
     ctx.floor(rule, len(calls), 3, "resolution calls in actor_run")
     for c in calls:
         inside = any(any(x is c for st in t.body for x in ast.walk(st)) and any((dotted(h.type) or "") == "Exception" for h in t.handlers) for t in tries)
         ctx.check(inside, rule, f, f"{unparse(c.func)[-40:]}(...) inside the outcome try", "provider failure = failed execution",
                   f"actor_run performs {unparse(c)[:60]} outside the try that turns exceptions into a failed execution: a failing provider crashes the processing task "
-                  "and the message is neither retried nor dead-lettered", node=c, instance=f"in try: {c.func.attr}")
+                  "and the message is neither retried nor dead-lettered", node=c, instance=f"in try: {c.func.attr if isinstance(c.func, ast.Attribute) else unparse(c.func)}")
 
 
 def _loop_env(kind: str | None, is_dep: bool | None, no_default: bool | None = None, scope=None):
@@ -243,20 +248,38 @@ def chain(ctx: Ctx, f: FuncInfo, provider: str, rule="R-C18-FLOW") -> None:
     ok = any(k.arg is None and isinstance(k.value, ast.Name) and k.value.id in kw_names for k in pc.keywords)
     ctx.check(ok, rule, f, f"{provider}(**resolved dependencies) in {tag}", "resolved values passed by parameter name", f"{tag}: {unparse(pc)[:80]} does not receive the resolved dependencies as keyword arguments",
               node=pc, instance=f"{tag}: kwargs passed")
-    # the mapping is filled under the loop's name variable, from the dependency table
+    # the mapping is filled under the loop's name variable, from the dependency table (possibly inside a helper that builds and returns the mapping)
+    lf = f
     loops = [n for n in ast.walk(f.node) if isinstance(n, (ast.For,)) and isinstance(n.target, ast.Tuple) and len(n.target.elts) == 2 and isinstance(n.iter, ast.Call)
              and isinstance(n.iter.func, ast.Attribute) and n.iter.func.attr == "items"]
+    if not loops and vals_src is not None:
+        for d in C.local_defs(f, vals_src):
+            if isinstance(d, ast.Call):
+                for cal in ctx.res.callees(f, d, record=False):
+                    hl = [n for n in ast.walk(cal.node) if isinstance(n, ast.For) and isinstance(n.target, ast.Tuple) and len(n.target.elts) == 2 and isinstance(n.iter, ast.Call)
+                          and isinstance(n.iter.func, ast.Attribute) and n.iter.func.attr == "items"]
+                    rets = C.own_returns(cal)
+                    if hl and len(rets) == 1 and isinstance(rets[0].value, ast.Name):
+                        lf, loops, vals_src_h = cal, hl, rets[0].value.id
+                        helper_binding = C.bind_call(cal, d)
     ctx.require(len(loops) >= 1, f"{f.qualname}: loop over the dependency table not found")
     lp = loops[0]
     nvar, dvar = lp.target.elts[0].id, lp.target.elts[1].id
     src = dotted(lp.iter.func.value)
+    map_name = vals_src
+    if lf is not f:
+        map_name = vals_src_h
+        root = src.split(".")[0] if src else ""
+        if root in helper_binding and dotted(helper_binding[root]):
+            src = dotted(helper_binding[root]) + src[len(root):]
     want_src = "self._subdependencies" if provider == "self._fn" else "actor.converter.dependencies"
     ctx.check(src == want_src, rule, f, f"dependency table iterated in {tag}", f"{want_src}.items()", f"{tag} iterates {src} instead of {want_src}", node=lp, instance=f"{tag}: table")
-    fills = [n for n in ast.walk(lp) if isinstance(n, ast.Assign) and any(isinstance(t, ast.Subscript) and dotted(t.value) == vals_src for t in n.targets)]
+    fills = [n for n in ast.walk(lp) if isinstance(n, ast.Assign) and any(isinstance(t, ast.Subscript) and dotted(t.value) == map_name for t in n.targets)]
     ctx.floor(rule, len(fills), 2, f"stores into the dependency mapping in {tag}")
     for a in fills:
         t = [t for t in a.targets if isinstance(t, ast.Subscript)][0]
-        ok = dotted(t.slice) == nvar and dvar in C.names_in(a.value) and any(isinstance(c, ast.Call) and isinstance(c.func, ast.Attribute) and c.func.attr == "resolve" for c in ast.walk(a.value))
+        val_x = C.inline_locals(lf, a.value, calls="all")
+        ok = dotted(t.slice) == nvar and dvar in C.names_in(val_x) and any(isinstance(c, ast.Call) and isinstance(c.func, ast.Attribute) and c.func.attr == "resolve" for c in ast.walk(val_x))
         ctx.check(ok, rule, f, f"mapping[{nvar}] = <{dvar}>.resolve(...) in {tag}", "each name mapped to its own provider's coroutine",
                   f"{tag}: {unparse(a)[:100]} does not map the dependency's name to its own provider's resolution", node=a, instance=f"{tag}: fill {unparse(t.slice)}")
         ctxs = [k.value for c in ast.walk(a.value) if isinstance(c, ast.Call) for k in c.keywords if k.arg == "context"]
